@@ -94,7 +94,12 @@ class Lane:
     def roundtrip(self, val, decoder, cname):
         self.c["A_values"] += 1
         self.c["A_by_class"][cname] = self.c["A_by_class"].get(cname, 0) + 1
-        b = val.serialize()
+        try:
+            b = val.serialize()
+        except Exception as e:
+            self.v("legal-value-cannot-be-encoded:" + cname.split("/")[0], "%s: a value within the field widths of the format cannot be "
+                   "encoded: %r (view %s)" % (cname, e, str(objgen.deep(val))[:200]), {"lane": "A", "class": cname, "bytes": ""})
+            return
         self.digests.add(digest("A", cname, b))
         w = {"lane": "A", "class": cname, "bytes": b.hex()}
         f = io.BytesIO(b)
@@ -205,7 +210,12 @@ class Lane:
             # textbook one-octet form differ
             val = getattr(g, name)(rng, big=True) if name in ("transaction", "block") and rng.random() < 0.2 \
                 else getattr(g, name)(rng)
-            b = val.serialize()
+            try:
+                b = val.serialize()
+            except Exception as e:
+                self.v("legal-value-cannot-be-encoded:" + g.decoder_for(name), "%s: a value within the field widths of the format cannot "
+                       "be encoded: %r" % (name, e), {"lane": "A", "class": g.decoder_for(name), "bytes": ""})
+                continue
             self.offer(b, "valid")
             # structure-aware: alternative encodings of every length prefix / height
             r = None
@@ -310,7 +320,11 @@ class Lane:
             blk = dt.Block(dt.BlockHeader(s, g.pow_evidence(rng)), txs)
             if len({t.hash() for t in txs}) != len(txs):
                 continue
-            store.write_blocks_to_disk([blk])
+            try:
+                store.write_blocks_to_disk([blk])
+            except Exception as e:
+                self.v("store-refuses-encodable-block", "write_blocks_to_disk raised %r" % (e,), {"lane": "C-store", "bytes": ""})
+                continue
             written[bridge.real_to_rblock(blk).id()] = bridge.real_to_rblock(blk)
         for blk in store.read_blocks_from_disk():
             r = bridge.real_to_rblock(blk)
